@@ -72,14 +72,14 @@ fn sweep_index_len(ctx: &RunCtx, keylen: usize, bloom: &Bloom) -> u64 {
 pub fn run(ctx: &RunCtx) -> PropResult {
     let mut report = Report::default();
     let p = profile();
-    run_profile(ctx, &p, ctx.tier.pick(2500, 40_000), &mut report);
+    run_profile(ctx, &p, ctx.tier.pick(4000, 40_000), &mut report);
     // systematic truncation sweep of the index of a closed blob: every length (thorough) or a stride (quick)
     let mut cases = vec![];
     let mut lens = vec![];
     for (keylen, bloom) in [(8usize, Bloom::None), (33, Bloom::Odd), (100, Bloom::Tiny)] {
         let total = sweep_index_len(ctx, keylen, &bloom);
         lens.push(serde_json::json!({"keylen": keylen, "index_len": total}));
-        let stride = ctx.tier.pick(if keylen == 8 { 11 } else { 97 }, 1) as u64;
+        let stride = ctx.tier.pick(if keylen == 8 { 3 } else { 13 }, 1) as u64;
         let mut l = 0u64;
         while l < total {
             for lazy in [false, true] {
